@@ -209,7 +209,7 @@ CONFIG = {
         "level_text": "String literals over an alphabet of quotes, backslashes, dashes, semicolons, comment openers/closers, newlines and NUL (incl. the classic payloads) as operands, call and "
                       "cast arguments, list elements, map keys/values, index expressions and ternary arms; generated expressions over all operators, ?:, calls alone / in chains / nested with 0..4 "
                       "arguments, member and index paths, lists, maps, casts and unary runs. The SQL must lex without comments or unterminated strings, parse as one expression and equal the source "
-                      "tree (operators, operand order, grouping, argument order, paths, casts, literal contents). Exploration only.",
+                      "tree (operators, operand order, grouping, argument order, paths, casts, literal contents). Exploration only. Type constructors with 0-3 arguments; untranslatable constructs planted at random leaves of translatable expressions.",
         "level_note": "trusts the 250-line SQL reader in the harness and the renderer",
     },
     "C19": {
@@ -230,7 +230,7 @@ CONFIG = {
                      "source / parameter equality, second-round-trip stability and a coverage floor over the CelValue / ByteCode variants seen in serialised form",
         "level_text": "38 constant-rich templates (error constants, non-finite doubles, extreme integers, invalid-UTF-8 bytes, types, timestamps, durations, nested containers, nested "
                       "blocks), the corpus and generated constant-rich programs are serialised to JSON and bincode, read back and executed under three binding sets; serialisation and "
-                      "deserialisation must succeed, outcomes must agree, source and parameters must be equal. Exploration only.",
+                      "deserialisation must succeed, outcomes must agree, source and parameters must be equal. Exploration only. Every pool value and random values as folded constants in eight shapes; nesting ladders up to and beyond the compiler's limits; programs that walk multi-key map constants at run time.",
         "level_note": "trusts canonical value rendering; JSON parameter order (a hash set) is normalised before comparing documents",
     },
     "C16": {
@@ -244,10 +244,10 @@ CONFIG = {
             "unit factors are compared with the exact definitions to 1e-6 relative (the uom crate carries seven-significant-digit factors); identity / inverse / transitivity to 1e-12",
             "arithmetic laws apply whenever the intermediate result is representable"],
         "technique": "runtime monitoring: algebraic-law monitors over observed time arithmetic, an independent civil-calendar model (Hinnant) with tz offsets from chrono_tz for every "
-                     "accessor and zone, truncation model for duration accessors, exact-definition table plus identity / inverse / transitivity laws for unit conversion",
+                     "accessor and zone, truncation model for duration accessors, exact-definition table plus identity / inverse / transitivity laws for unit conversion; position-invariance monitor (every 12th evaluated expression re-evaluated in nine other syntactic / execution positions, value must be bit-identical, failure must stay a failure)",
         "level_text": "Instants from the whole representable range (pool boundaries, year boundaries 1..9999, leap days, spring/autumn hours 1990..2037, random seconds and milliseconds), "
                       "durations incl. extremes; every one of the ~600 IANA zone names plus invalid names x ten accessors; zone-less form vs 'UTC'; every unit pair within and across the four "
-                      "categories over 23 magnitudes each. Exploration only.",
+                      "categories over 23 magnitudes each. Exploration only. Unit aliases; unknown x unknown unit pairs.",
         "level_note": "trusts the 25-line civil calendar, chrono_tz offsets and the unit definition table in the harness",
     },
     "C15": {
@@ -264,11 +264,11 @@ CONFIG = {
             "a receiver written as first argument (or vice versa) is documented for 'all functions' but implemented for size only: not classified; min/max/zip are variadic and not shape-checked",
             "double math is compared with host libm within 2 ulp (pow: 1e-12 relative)"],
         "technique": "runtime monitoring with naive reference implementations (byte-wise scanning), the regex engine called directly, i128 / libm math models and a signature table "
-                     "for receiver/argument shapes; variable and literal form",
+                     "for receiver/argument shapes; variable and literal form; position-invariance monitor (every 12th evaluated expression re-evaluated in nine other syntactic / execution positions, value must be bit-identical, failure must stay a failure)",
         "level_text": "Strings over a mixed ASCII / multi-byte / case-folding / white-space alphabet up to 10 symbols x needles (empty, single, overlapping, absent, longer, case-changed); "
                       "splitAt at every byte offset; regex patterns assembled from 26 pieces incl. invalid ones against the engine; every math function over the int/uint/double boundary grids "
                       "and random operands, pow over grid x exponents; every default function x receiver type x argument type tuples of arity 0..3 (exhaustive over 11 types) and sampled arity 4 "
-                      "must be accepted exactly on its documented shapes. Exploration only.",
+                      "must be accepted exactly on its documented shapes. Exploration only. The alphabet holds every letter whose case mapping crosses the ASCII boundary or changes length; needles are also cut from the other-case form of the receiver.",
         "level_note": "trusts the naive string algorithms (60 lines), the regex crate and host libm",
     },
     "C11": {
@@ -287,7 +287,7 @@ CONFIG = {
         "level_text": "Exhaustive: all histories of length <= 3 (quick; length 4 sampled, thorough: all 1.7 M) over a 36-operation alphabet (2 contexts, 2 binding sets, 2 program names, 3 sources "
                       "of which one references the other program and one is a map macro, 2 variables, 2 values, clones in both directions), plus random histories of length 5..40 over generated "
                       "programs in 3 contexts / binding sets; each deterministic corpus program repeated 50 times and compared across the 16 worker processes; 16 threads x cloned contexts x "
-                      "300..1000 iterations against the single-threaded reference. Exploration only.",
+                      "300..1000 iterations against the single-threaded reference. Exploration only. Histories include re-binding through the JSON overload; programs that walk hash maps and every built-in with hostile arguments are repeated freshly compiled, in one context, after other calls and on a fresh thread.",
         "level_note": "trusts the sequential model (two maps per slot) and serde_json snapshots of stored programs",
     },
     "C12": {
@@ -306,7 +306,7 @@ CONFIG = {
         "level_text": "All name-collision configurations for an identifier (type name / variable / program) in three positions, for a call (user function / macro / type constructor / default) "
                       "and field-vs-method; rebinding and re-adding; JSON-bound vs directly bound values; every referencing construct x 1-, 2- and 3-cycles; all 512 three-node graphs and "
                       "(thorough) all 65 536 four-node graphs with self-loops; chains of 1..64 links per construct; loop bodies over 1..200 elements under the frame monitor. Cycles must end "
-                      "in an error on both stack sizes, acyclic graphs in the model value. Exploration only (complete for the enumerated graphs).",
+                      "in an error on both stack sizes, acyclic graphs in the model value. Exploration only (complete for the enumerated graphs). Identifier resolution over 13 names x 22 positions against a fresh variable bound to the prescribed value; field versus method for twelve method names called with arguments on bound, literal and indexed maps.",
         "level_note": "trusts the graph model (DFS, 20 lines) and the driver's crash triage",
     },
     "C10": {
@@ -326,7 +326,7 @@ CONFIG = {
         "level_text": "Every program emitted for the corpus and for control-flow-heavy generated sources (nested ||, &&, ?:, match, calls, macros, f-strings) is walked: jumps forward "
                       "and inside [i+1, len], no underflow, equal heights at joins, exactly one value at the end, recursively for nested blocks. Each program then runs under four "
                       "binding sets that flip conditions while the hook monitor checks every step against the walker's effect table. Random instruction sequences with out-of-range, "
-                      "huge and negative jump distances and starved stacks must end in a value or an error with every fetch inside the block. Exploration, not a proof about the compiler.",
+                      "huge and negative jump distances and starved stacks must end in a value or an error with every fetch inside the block. Exploration, not a proof about the compiler. Injected programs include failure-valued conditions and directed conditional jumps of every sense and reach; the trace monitor also demands that a block runs off its end only at its length.",
         "level_note": "trusts the effect table (cross-validated dynamically against the VM on every executed step) and the hook events",
     },
     "C18": {
@@ -344,7 +344,7 @@ CONFIG = {
         "level_text": "Generated expressions of all node kinds rendered with random white space (blanks, tabs, newlines), multi-byte string literals and random/redundant parentheses: every "
                       "renderer span must be the span of a syntax-tree node and vice versa; children inside parents, siblings disjoint, root without surrounding blanks; the text of a "
                       "span recompiles to the same normalised subtree; token spans increase, do not overlap and re-lex to the same token; for corrupted sources the reported line/column "
-                      "lies within the source. Exploration only.",
+                      "lies within the source. Exploration only. Syntax errors inside f-string expressions in multi-line layouts with short lines above.",
         "level_note": "trusts the renderer's layout bookkeeping (line/column counting) and the generic JSON walk",
     },
     "C02": {
@@ -358,11 +358,11 @@ CONFIG = {
             "mixed prefix runs (!-x) and a bare ?: / match in operand position are not in the grammar and are not generated as positives",
             "the AST is normalised by collapsing single-child wrappers and parentheses (public grammar types walked in astnorm.rs)"],
         "technique": "runtime monitoring with an independent shunting-yard parser as reference model for the exposed syntax tree, metamorphic re-rendering "
-                     "(minimal / redundant / random parentheses x white space) and an i128 evaluation of arithmetic trees",
+                     "(minimal / redundant / random parentheses x white space) and an i128 evaluation of arithmetic trees; position-invariance monitor (every 12th evaluated expression re-evaluated in nine other syntactic / execution positions, value must be bit-identical, failure must stay a failure)",
         "level_text": "Exhaustive: every flat sequence of 1..3 binary operators (14 + 196 + 2744) with the five unary prefixes per operand (quick: all <= 2-operator sequences with all "
                       "prefixes, 3-operator ones without; thorough: all 1.7 M), ?: at every pair of positions, five postfix chains at every operand position; the normalised AST must "
                       "equal the shunting-yard tree. Random trees to depth 7 in six renderings must give the same AST and outcome; moved parentheses must give the other tree; "
-                      "arithmetic trees must evaluate to the i128 value of the expected tree. Exploration only (the exhaustive part is complete for its bounds).",
+                      "arithmetic trees must evaluate to the i128 value of the expected tree. Exploration only (the exhaustive part is complete for its bounds). Operands are variables, literals of every numeric spelling (exponent, hexadecimal) and constant primaries with postfix chains; runs of prefix operators are compared with their nested single-operator form; flat chains of one precedence level are evaluated against i128.",
         "level_note": "trusts the 30-line shunting-yard parser, the AST walk and the renderer",
     },
     "C17": {
@@ -394,7 +394,7 @@ CONFIG = {
             "built-in functions are not rebound by the caller",
             "clock: a reading must lie inside the wall-clock bracket of its own execution (logical containment, no latency bound)"],
         "technique": "runtime monitoring with a metamorphic oracle: the same expression with any subset of its variables replaced by literals of their bound values (and literals "
-                     "abstracted into variables) must give the same outcome; ConstFold hook events confirm that the compile-time path ran; clock-bracket monitor for now()/timestamp()",
+                     "abstracted into variables) must give the same outcome; ConstFold hook events confirm that the compile-time path ran; clock-bracket monitor for now()/timestamp(); position-invariance monitor (every 12th evaluated expression re-evaluated in nine other syntactic / execution positions, value must be bit-identical, failure must stay a failure)",
         "level_text": "Generated full-grammar expressions with 1..5 variables of every spellable type x all subsets of the variables (<= 31) turned into literals, plus the reverse "
                       "direction, plus 44 hand-written hazard templates (macros over partly constant lists, duplicate keys, ?: conditions, unbound variables, has/coalesce) over value "
                       "combinations; 21 clock-dependent programs must report an instant inside the bracket of each execution, twice and after a serde round trip. Exploration only.",
@@ -411,11 +411,11 @@ CONFIG = {
             "the body executed on its own (separate program, loop variable bound) is the reference for what the body means",
             "a body failing on an element after the deciding one must not fail the macro"],
         "technique": "runtime monitoring by differential decomposition: per-element executions of the body through the API + the defining fold in the harness; "
-                     "call-log monitor for visit order and early stop; repeated fresh-map and cross-process comparison for map iteration order",
+                     "call-log monitor for visit order and early stop; repeated fresh-map and cross-process comparison for map iteration order; position-invariance monitor (every 12th evaluated expression re-evaluated in nine other syntactic / execution positions, value must be bit-identical, failure must stay a failure)",
         "level_text": "Lists of length 0..64 (regularly beyond the call-depth limit) of every element type; bodies from the typed generator that read the loop variable, outer "
                       "variables, a stored program and inner macros re-using the same variable name, with the loop variable's name also bound to a decoy outside; all seven macro forms. "
                       "Result and the exact sequence of body evaluations must equal the fold over independent executions. Map iteration order is compared over 20 freshly built equal "
-                      "maps per key set and across the 16 worker processes. Exploration only.",
+                      "maps per key set and across the 16 worker processes. Exploration only. Constant receivers (literal list / map, plain and nested) against bound receivers with bodies that absorb outer names; folds over maps.",
         "level_note": "trusts the fold definitions in the harness (40 lines) and the logging functions",
     },
     "C08": {
@@ -428,11 +428,11 @@ CONFIG = {
         "assumptions": ASSUME_COMMON + [
             "'intermediate is not a map': false or a propagated error is accepted, true never",
             "paths through a method call on an unbound root are outside the quantifier and not generated"],
-        "technique": "runtime monitoring with a path-presence model over all binding configurations and a call-log model for coalesce's left-to-right, stop-at-chosen evaluation",
+        "technique": "runtime monitoring with a path-presence model over all binding configurations and a call-log model for coalesce's left-to-right, stop-at-chosen evaluation; position-invariance monitor (every 12th evaluated expression re-evaluated in nine other syntactic / execution positions, value must be bit-identical, failure must stay a failure)",
         "level_text": "has(): exhaustive over field paths of depth 0..4 (dot / index / mixed forms, keys that are also method names), the six binding configurations of the "
                       "quantifier, four leaf values and nine contexts (top level, operand, negation, all/exists/map/filter/reduce bodies, nested macros, loop variable as root); "
                       "eight non-absence failures must propagate. coalesce(): every argument list of length 0..4 over eight item kinds (logged present/null, literal null, unbound, "
-                      "absent key, failing call, division by zero, bad index) plus random longer lists, result and call log against the model. Exploration only.",
+                      "absent key, failing call, division by zero, bad index) plus random longer lists, result and call log against the model. Exploration only. Null and scalar parents, spelling independence of field paths, names that resolve to stored programs (nine programs x twelve uses x every context) against the source written in place.",
         "level_note": "trusts the harness path builder and the logging functions",
     },
     "C05": {
@@ -446,10 +446,10 @@ CONFIG = {
             "a failing match scrutinee or pattern is outside the statement and not generated",
             "bool() on the ten boolean spellings is a conversion (C14) and excluded from the truthiness comparison"],
         "technique": "runtime monitoring: call-log monitor (bound functions with unique ids record every evaluation) compared with a reference evaluator of the "
-                     "laziness / failure-absorption rules; truthiness table checked in nine syntactic contexts",
+                     "laziness / failure-absorption rules; truthiness table checked in nine syntactic contexts; position-invariance monitor (every 12th evaluated expression re-evaluated in nine other syntactic / execution positions, value must be bit-identical, failure must stay a failure)",
         "level_text": "All one-operator trees and all two-operator trees over 12 atom kinds (logging truthy/falsy/non-bool calls, failing calls, literals, bound variables, unbound "
                       "identifier, run-time and compile-time division by zero) and random trees up to 12 operators incl. match are executed; result and exact call sequence must "
-                      "equal the reference evaluator. Truthiness of every pool value is compared in ?:, !, ||, &&, all, exists, filter, map and bool(), literal and bound. Exploration only.",
+                      "equal the reference evaluator. Truthiness of every pool value is compared in ?:, !, ||, &&, all, exists, filter, map and bool(), literal and bound. Exploration only. The truthiness stage covers runs of ! (2-4, spaced, nested, as list element and comparison operand).",
         "level_note": "trusts the 60-line reference evaluator and the logging functions bound through bind_func",
     },
     "C06": {
@@ -461,10 +461,10 @@ CONFIG = {
         "assumptions": ASSUME_COMMON + [
             "list membership across numeric types (1 in [1u]) and of containers is not asserted in the negative direction",
             "absent key / field must be CelError::Attribute (the class has() and coalesce() depend on)"],
-        "technique": "runtime monitoring with a reference model (vectors, last-wins insertion maps) over generated collections built from literal, bound and mixed elements",
+        "technique": "runtime monitoring with a reference model (vectors, last-wins insertion maps) over generated collections built from literal, bound and mixed elements; position-invariance monitor (every 12th evaluated expression re-evaluated in nine other syntactic / execution positions, value must be bit-identical, failure must stay a failure)",
         "level_text": "Lists and maps of size 0..8 with elements of every type (nested) are built all-literal (compiler), all-variable (VM) and mixed; every index in "
                       "[-size-2, size+2] plus extreme ints/uints, non-integer indices, every key of a small key set incl. duplicates, absent keys and keys that are method names, "
-                      "membership, concatenation and size are compared with the model in bound and literal form. Exploration only.",
+                      "membership, concatenation and size are compared with the model in bound and literal form. Exploration only. Field access is repeated with variables and loop variables spelled like the field.",
         "level_note": "trusts the 20-line collection model in the harness",
     },
     "C14": {
@@ -478,11 +478,11 @@ CONFIG = {
             "which strings int()/uint()/double() accept beyond plain decimal is not asserted, only that an accepted string converts to the number it spells",
             "string(bool|null|type|list|map), bool(non-string) are not asserted here (truthiness is C05)"],
         "technique": "runtime monitoring with a conversion-table oracle, round-trip and idempotence laws, literal-vs-variable differential, and differential "
-                     "decomposition of f-strings (each segment's string(e) evaluated separately through the API)",
+                     "decomposition of f-strings (each segment's string(e) evaluated separately through the API); position-invariance monitor (every 12th evaluated expression re-evaluated in nine other syntactic / execution positions, value must be bit-identical, failure must stay a failure)",
         "level_text": "Every pool value (all types, boundaries) under every constructor in variable and literal form is compared with the conversion table of the statement; "
                       "T(T(x))==T(x) and type(T(x))==T are checked wherever T(x) evaluates; random numeric strings (signs, blanks, exponents, non-ASCII digits), random doubles "
                       "and 64-bit integers; round trips int/uint/double/bytes/timestamp through string; f-strings of 0..6 segments against the concatenation of separately "
-                      "evaluated parts, failing when a part has no string form. Exploration only.",
+                      "evaluated parts, failing when a part has no string form. Exploration only. type(x) is modelled exactly; f-strings embed literals and constant expressions of every type next to variables.",
         "level_note": "trusts the harness conversion table (direct transcription of the statement) and host float parsing/printing",
     },
     "C13": {
@@ -496,10 +496,10 @@ CONFIG = {
             "i64::MIN spelled as -9223372036854775808: the exact value or a rejection is accepted",
             "unknown escape letters and the U suffix-free forms not listed in the statement are not classified"],
         "technique": "runtime monitoring with an independent speller oracle: value -> randomly chosen supported spelling -> compile+evaluate -> bit-exact comparison; "
-                     "malformed templates must yield CelError::Syntax",
+                     "malformed templates must yield CelError::Syntax; position-invariance monitor (every 12th evaluated expression re-evaluated in nine other syntactic / execution positions, value must be bit-identical, failure must stay a failure)",
         "level_text": "Boundary and random int64/uint64 values (decimal, hex in both cases), finite doubles from random bit patterns in six spellings, Unicode strings over all "
                       "planes and byte strings over 0..255 with a random escape form per character (simple, \\x, \\u, \\U, octal, raw, f-prefixed, both quotes) must evaluate to "
-                      "exactly the spelled value; sixteen malformed/out-of-range templates must be rejected with a syntax error. Exploration only.",
+                      "exactly the spelled value; sixteen malformed/out-of-range templates must be rejected with a syntax error. Exploration only. Double literals are also generated from spellings (random digit strings) and from scaled 53-bit mantissas; every hexadecimal spelling; raw strings with backslashes at every position; malformed escapes draw any non-hexadecimal character.",
         "level_note": "trusts the harness speller and the host's decimal-to-double conversion",
     },
     "C04": {
@@ -511,7 +511,7 @@ CONFIG = {
             "model order: i128 for int/uint, IEEE for doubles, integer vs double through `as f64`, byte-wise for strings/bytes, chrono for time",
             "not asserted: bool vs number, order between two lists/maps/nulls/types, anything involving NaN beyond ==/!= complement"],
         "technique": "runtime monitoring: algebraic-law monitors (complement, symmetry, reflexivity, trichotomy) plus a model order over an exhaustive "
-                     "boundary grid of pairs and random values; permutation + inversion monitor for sort; first-extreme monitor for min/max",
+                     "boundary grid of pairs and random values; permutation + inversion monitor for sort; first-extreme monitor for min/max; position-invariance monitor (every 12th evaluated expression re-evaluated in nine other syntactic / execution positions, value must be bit-identical, failure must stay a failure)",
         "level_text": "All ordered pairs of a ~200-value boundary grid (every type) under all six relational operators, variable and literal form, are checked "
                       "against the laws and an independent total order per group; unrelated-type comparisons must fail; random pairs, nested containers and "
                       "lists up to 40 (2000 in thorough) elements exercise sort/min/max. Transitivity follows from agreement with the model order on all pairs. Exploration only.",
@@ -529,10 +529,10 @@ CONFIG = {
             "reference model: i128 arithmetic, host IEEE-754 doubles, widening table as in the statement, truncating integer division",
             "accepted either way: int-uint mix with uint > i64::MAX (exact or error), i64::MIN % -1 (0 or error), % on doubles (fmod or error)"],
         "technique": "runtime monitoring with a reference-model oracle (i128 / IEEE) over an exhaustive boundary grid and random operands, "
-                     "literal-vs-variable differential, overflow-checks build vs release-like build digest diff",
+                     "literal-vs-variable differential, overflow-checks build vs release-like build digest diff; position-invariance monitor (every 12th evaluated expression re-evaluated in nine other syntactic / execution positions, value must be bit-identical, failure must stay a failure)",
         "level_text": "Every ordered pair of the boundary grid (ints, uints, doubles, bools) under every operator, in variable, literal and mixed form, and "
                       "under both build profiles, is compared bit-exactly with an independent i128/IEEE model; all numeric x non-numeric and non-numeric pairs "
-                      "must fail; per-case outcome digests of the two profiles are diffed. Random 64-bit operands widen the sample. Exploration only.",
+                      "must fail; per-case outcome digests of the two profiles are diffed. Random 64-bit operands widen the sample. Exploration only. Chains a op1 b op2 c with every subset of operands as literals against the parenthesised all-variable form; runs of 1-4 unary minus signs on every grid value and on non-numeric types.",
         "level_note": "trusts the harness model (40 lines of i128 arithmetic) and the host FPU; grid is finite, random part is sampling",
     },
     "C01": {
@@ -552,7 +552,7 @@ CONFIG = {
         "level_text": "Every generated execution (exhaustive built-in sweep up to arity 2 over a boundary pool in variable and literal form, operators over the "
                       "whole pool, every corpus prefix, mutated / random / grammar-derived sources with hostile bindings, nesting and length ladders in crash-isolated "
                       "workers on 8 MiB and 2 MiB stacks) is observed to end in a value or an error; panics are caught and attributed, process deaths are attributed "
-                      "through the journal. Exploration, not proof: it says nothing about inputs that were not executed.",
+                      "through the journal. Exploration, not proof: it says nothing about inputs that were not executed. Also: every pair of an integer pool that holds the 64-bit limits counted in seconds / milli- / micro- / nanoseconds for every built-in in free and method form; sort / min / max over long lists of comparable families with NaN and foreign strangers.",
         "level_note": "trusts the harness's outcome capture and the driver's crash triage; optimised builds only; quadratic-time ladders capped at 8192 elements",
     },
 }
